@@ -3,10 +3,10 @@
    INDEX
      seq_calls_inv      a loop of calls preserves every property each call preserves, whatever its outcome
      pubs_map_Some, pubs_app, fwd_pubs
-     ln_append_WF, ln_remove_WF, ln_remove_all_WF, op_shift_WF, lst_shift_WF
+     ln_append_WF, ln_remove_WF, ln_remove_all_WF, op_shift_WF, lst_shift_WF, lst_set_links_WF
      *_pub              the derived operations never change which objects are public (length / hidden flags)
      link_args_pub s o  the objects named by a link operation are public (allocated, not a hidden WBS root)
-     link_step_WF       WF s -> link_args_pub s o -> WF (fst (step s o))     for the six link operations *)
+     link_step_WF       WF s -> link_args_pub s o -> WF (fst (step s o))     for the seven link operations *)
 From Coq Require Import Arith PeanoNat.
 From PJ Require Import Base.Prelude Graph.Model Graph.Invariant Graph.DepLemmas Graph.LinksProofs.
 Local Open Scope nat_scope.
@@ -116,13 +116,41 @@ Proof.
   - intro y. rewrite op_shift_pub. apply E.
 Qed.
 
-(* ================= the six link operations as steps ================= *)
+(* ---- ts.predecessors = vs, ts.successors = vs on a task list: one setter call per element, undone as a whole ---- *)
+Theorem lst_set_links_pub dir s ts vs y : pub (fst (lst_set_links dir s ts vs)) y <-> pub s y.
+Proof.
+  unfold lst_set_links, all_or_nothing.
+  destruct (snd (lst_set_links_seq dir s ts vs)) as [[]| |c]; cbn [fst]; [|reflexivity..]. unfold lst_set_links_seq.
+  apply (seq_calls_inv (fun s' => pub s' y <-> pub s y) (fun s' t => set_links dir s' t vs)); [|reflexivity].
+  intros s' c _ H. rewrite set_links_pub. exact H.
+Qed.
+
+Theorem lst_set_links_seq_WF dir s ts vs :
+  WF s -> (forall t, In t ts -> pub s t) -> pubs s vs -> WF (fst (lst_set_links_seq dir s ts vs)).
+Proof.
+  intros W Pt Pv. unfold lst_set_links_seq.
+  apply (seq_calls_inv (fun s' => WF s' /\ forall y, pub s' y <-> pub s y) (fun s' t => set_links dir s' t vs));
+    [|split; [exact W|reflexivity]].
+  intros s' t Ht [W' E]. split.
+  - apply set_links_WF; [exact W'|apply E, Pt, Ht|]. eapply pubs_frame; [exact E|exact Pv].
+  - intro y. rewrite set_links_pub. apply E.
+Qed.
+
+Theorem lst_set_links_WF dir s ts vs :
+  WF s -> (forall t, In t ts -> pub s t) -> pubs s vs -> WF (fst (lst_set_links dir s ts vs)).
+Proof.
+  intros W Pt Pv. unfold lst_set_links, all_or_nothing.
+  destruct (snd (lst_set_links_seq dir s ts vs)) as [[]| |c]; cbn [fst]; [|exact W..].
+  apply lst_set_links_seq_WF; assumption.
+Qed.
+
+(* ================= the seven link operations as steps ================= *)
 Definition link_args_pub (s : state) (o : op) : Prop :=
   match o with
   | SetLinks _ t vs | OpShift _ t vs => pub s t /\ pubs s vs
   | LnAppend _ t x => pub s t /\ (forall x', x = Some x' -> pub s x')
   | LnRemove _ t _ | LnRemoveAll _ t _ => pub s t
-  | LstShift _ ts vs => (forall t, In t ts -> pub s t) /\ pubs s vs
+  | LstShift _ ts vs | LstSetLinks _ ts vs => (forall t, In t ts -> pub s t) /\ pubs s vs
   | _ => False
   end.
 
@@ -136,6 +164,7 @@ Proof.
   - apply ln_remove_all_WF; assumption.
   - destruct A; apply op_shift_WF; assumption.
   - destruct A; apply lst_shift_WF; assumption.
+  - destruct A; apply lst_set_links_WF; assumption.
 Qed.
 
 Theorem link_step_pub s o y : link_args_pub s o -> (pub (fst (step s o)) y <-> pub s y).
@@ -148,4 +177,5 @@ Proof.
   - apply ln_remove_all_pub.
   - apply op_shift_pub.
   - apply lst_shift_pub.
+  - apply lst_set_links_pub.
 Qed.
